@@ -153,6 +153,13 @@ func (l *Lowerer) call(ce *ast.CallExpr) ([]*Term, []types.Type) {
 				}
 				panic("lockinv: no clause " + lab.Name + " for " + key)
 			}
+		case "chanclosed":
+			// chanclosed(ch): the channel has been closed
+			if l.spec && len(ce.Args) == 1 {
+				ch, _ := l.tr(ce.Args[0])
+				hv := l.heapVar("F.$chan.closed", "Bool")
+				return []*Term{Select(hv, ch)}, []types.Type{types.Typ[types.Bool]}
+			}
 		case "acquired":
 			// acquired(): the function has acquired a lock so far (acq(...) is meaningful)
 			if l.spec && len(ce.Args) == 0 {
